@@ -31,9 +31,16 @@ var emitterCtors = []string{
 }
 
 // chunkInfo describes one &chunk{...} allocation.
+// valInstr: an SSA value that is also an instruction (an allocation or a call).
+type valInstr interface {
+	ssa.Value
+	ssa.Instruction
+}
+
 type chunkInfo struct {
 	fn     *ssa.Function
-	a      *ssa.Alloc
+	a      valInstr      // where the chunk is made in fn: the composite literal, or the call of a constructor helper
+	ctor   *ssa.Function // non-nil: made by this constructor helper (fields rewritten into fn's terms)
 	idx    int
 	id     string // canonical terms at the point where the chunk is complete
 	retID  string
@@ -65,7 +72,57 @@ func (c *Ctx) chunkAllocs(fn *ssa.Function) []chunkInfo {
 		}
 		out = append(out, ci)
 	}
+	// chunks made by a constructor helper: `newBodyChunk(counter, returnID, statements)` is a
+	// chunk literal written once; its fields are the helper's, rewritten through the call
+	for _, cx := range callsIn(fn) {
+		call, ok := cx.(*ssa.Call)
+		if !ok {
+			continue
+		}
+		g := callee(call)
+		if g == nil || g == fn || !c.W.InRepo(g) || len(g.Blocks) == 0 || chunkCtorBusy[g] {
+			continue
+		}
+		res := g.Signature.Results()
+		if res.Len() != 1 || !typeIs(res.At(0).Type(), "emitter", "chunk") {
+			continue
+		}
+		chunkCtorBusy[g] = true
+		inner := c.chunkAllocs(g)
+		delete(chunkCtorBusy, g)
+		if len(inner) != 1 || inner[0].ctor != nil {
+			continue
+		}
+		returned := true
+		for _, r := range returnsOf(g) {
+			if len(r.Results) != 1 || r.Results[0] != ssa.Value(inner[0].a) {
+				returned = false
+			}
+		}
+		if !returned {
+			continue
+		}
+		ci := chunkInfo{fn: fn, a: call, ctor: g, idx: len(out)}
+		ci.id = c.term(fn, call) + ".id"
+		ci.retID = c.substParams(fn, call, inner[0].retID)
+		ci.stmts = c.substParams(fn, call, inner[0].stmts)
+		out = append(out, ci)
+	}
+	sort.SliceStable(out, func(i, j int) bool { return out[i].a.Pos() < out[j].a.Pos() })
+	for i := range out {
+		out[i].idx = i
+	}
 	return out
+}
+
+var chunkCtorBusy = map[*ssa.Function]bool{}
+
+// chunkLastUse: a point at which the chunk's fields have their final values.
+func chunkLastUse(ci chunkInfo) ssa.Instruction {
+	if a, ok := ci.a.(*ssa.Alloc); ok {
+		return lastUse(a)
+	}
+	return ci.a
 }
 
 // chunkRole gives a stable, position-free name to a chunk allocation: by what its
@@ -193,6 +250,28 @@ func c01c(c *Ctx) {
 			key := fmt.Sprintf("%s/%s#%d.id", c.W.FuncKey(fn), chunkRole(ci), ci.idx)
 			pos := c.W.Pos(ci.a.Pos())
 			switch {
+			case ci.ctor != nil:
+				// made by a constructor helper: the helper's own literal is checked when the loop
+				// reaches the helper; here: it takes its id from a counter increment of its own
+				okC := false
+				for _, in := range c.chunkAllocs(ci.ctor) {
+					if in.idLoad != nil && counterIncrement(in.idDef) {
+						okC = true
+					}
+					// the id is a parameter of the helper: the caller must pass a counter value it
+					// incremented just before
+					if k := paramIndexOfTerm(in.id); k >= 0 {
+						if call, isCall := ci.a.(*ssa.Call); isCall && k < len(call.Call.Args) {
+							if ld, isLoad := call.Call.Args[k].(*ssa.UnOp); isLoad {
+								def := c.T(fn).loadDef[ld]
+								if counterIncrement(def) && instrDominates(def, call) && loops[def.Block()] == loops[call.Block()] {
+									okC = true
+								}
+							}
+						}
+					}
+				}
+				c.Check(okC, key, pos, "made by "+ci.ctor.Name()+", which takes a fresh id from the counter for every chunk it makes", "the constructor helper "+ci.ctor.Name()+" does not give the chunk a freshly incremented counter value as id")
 			case ci.id == "0":
 				c.OK(key, pos, "initial chunk id 0")
 			case strings.HasSuffix(ci.id, ".id") && !strings.Contains(ci.id, "new#"):
@@ -660,15 +739,6 @@ func c01b(c *Ctx) {
 		for _, ci := range c.chunkAllocs(split) {
 			ms = append(ms, made{ci.a, ci.stmts, ci.retID})
 		}
-		for _, cx := range callsIn(split) {
-			g := callee(cx)
-			if g == nil || !c.W.InRepo(g) || g == split {
-				continue
-			}
-			for _, ci := range c.chunkAllocs(g) {
-				ms = append(ms, made{cx.(ssa.Instruction), c.substParams(split, cx, ci.stmts), c.substParams(split, cx, ci.retID)})
-			}
-		}
 		ok := len(ms) == 1
 		why := fmt.Sprintf("expected one post-logic chunk to be made in splitChunkForBranch, found %d", len(ms))
 		if ok {
@@ -821,7 +891,7 @@ func c01g(c *Ctx) {
 		}
 		n++
 		pos := c.W.Pos(ci.a.Pos())
-		use := lastUse(ci.a)
+		use := chunkLastUse(ci)
 		term := c.fieldAtUse(fn, ci.a, "useEndTerminator", use)
 		c.Check(strings.HasSuffix(term, `.Name.Value == "end")`), "early-exit/terminator-kind", pos, "useEndTerminator = (command name == \"end\")", "useEndTerminator is "+pretty(term)+", expected (command name == \"end\")")
 		d := c.PC(fn).At(ci.a.Block())
